@@ -498,6 +498,23 @@ func (r *run) restPatch(e Ev) {
 			existing = dts[duid]
 		}
 	}
+	if e.Json == "" && existing != nil && existing.doc.Type == model.TypeOfDatatype_DOCUMENT.String() && g.Chance(3, 4) {
+		// a target close to what is stored: most entries stay as they are, so that the patch is a real
+		// edit script on the stored state and not a replacement of everything
+		n := existing.doc.Sseq.End
+		if n > uint64(len(existing.ops)) {
+			n = uint64(len(existing.ops))
+		}
+		if dt, errS := r.replay(existing, n); errS == "" {
+			var cur interface{}
+			if json.Unmarshal([]byte(kernel.Canon(dt.ToJSON())), &cur) == nil {
+				if m, ok := enga.MutateJSON(g, cur, 0).(map[string]interface{}); ok {
+					target = kernel.Canon(m)
+					r.probe("rest-patch-near-target")
+				}
+			}
+		}
+	}
 	before := r.storeDigest()
 	r.probe("rest-patch")
 	res := r.sendAs("rest", "PatchDocument", &model.PatchMessage{Collection: a.collection, Key: key, Json: target})
@@ -530,7 +547,13 @@ func (r *run) restPatch(e Ev) {
 			continue
 		}
 		found = true
-		dt, errS := r.replay(di, uint64(len(di.ops)))
+		// the log is what lies below the recorded end; operations beyond it belong to a commit that a
+		// database fault interrupted (the pusher's retry removes and re-appends them, after the patch)
+		upTo := uint64(len(di.ops))
+		if di.doc.Sseq.End < upTo {
+			upTo = di.doc.Sseq.End
+		}
+		dt, errS := r.replay(di, upTo)
 		if errS != "" {
 			r.fail("rest", "C19.rest-ops-appended", "replay-error", "after the REST patch the stored log of %s cannot be replayed: %s", key, errS)
 			continue
